@@ -11,7 +11,7 @@ C02 / C03 — executable model of the forward-chaining engine's control:
   src/engine/rule.rs        `Rule::is_active_at`
 
 Conventions: rule names, agenda groups, activation groups and fact fields are `Nat` identifiers
-(agenda group 0 is the string "MAIN"); salience and fact values are `Int`; timestamps are `Nat`.
+(agenda group 0 is the string "MAIN"); salience and fact values are `Int`; timestamps are `Nat` — nanoseconds (the resolution of `DateTime<Utc>`; `is_active_at` compares the full instants).
 Condition semantics is deliberately small (C01 models it in depth): `field == k`, `field < k`,
 `field > k` over a flat integer fact store, a missing field compares false (`Value::Null`).
 The model follows the code *after* fix-C02.patch: the `ActivateAgendaGroup` action focuses the group
